@@ -110,7 +110,9 @@ CHECKS = {
         "fuzz": [{"pkg": "./proxyproto", "target": "FuzzC08", "time": "90s", "key": "C08:fuzz"}],
     },
     "C16": {
+        "binaries": ["forwarder"],
         "runs": [
+            R(LAB, "^TestC16Dispatch", {"checks": 40, "timeout": 900}, {"checks": 400, "shards": 8, "timeout": 3000}),
             R("./header", "^TestC16Apply", {"checks": 20000, "timeout": 300}, {"checks": 200000, "shards": 8, "timeout": 1200}),
             R("./header", "^TestC16(Parse|Grammar)", {"checks": 20000, "timeout": 300}, {"checks": 200000, "shards": 4, "timeout": 1200}),
         ],
@@ -193,7 +195,10 @@ RULES = {
            "applied to a header map built from 0-7 wire fields, compared after every rule with a reference interpreter over a case-insensitive multimap with a spelling attribute; "
            "(Parse) grammar strings, grammar strings with CR/LF/NUL/colon/semicolon/star/percent inserted at generated offsets, regex-shaped and arbitrary strings: accepted => token name, no CR/LF in value, action fixed by the syntax, String() re-parses to the same rule; "
            "(Grammar) every generated rule of the documented grammar is accepted with the intended meaning. Non-trivial (Apply) = two rules on the same name, a prefix rule matching >=2 fields, or a % rule; "
-           "(Parse) = accepted string. Distinct = distinct (rule list, wire list) / distinct strings.",
+           "(Parse) = accepted string. Distinct = distinct (rule list, wire list) / distinct strings. "
+           "(Dispatch, real binary built from the working tree) three generated rule lists given with --header, --connect-header, --response-header (each rule of a list on a different marker field, so the list's meaning is unambiguous), "
+           "directly or through an upstream proxy, with or without MITM: a GET, a CONNECT and a request inside the tunnel are sent with generated marker fields; the request as it reaches the next hop, the response as it reaches the client, "
+           "the reply to the CONNECT, the CONNECT sent to the upstream proxy and the messages inside a plain tunnel are each compared with the meaning of exactly the list that belongs to that kind (and no other). Non-trivial = at least two non-empty lists.",
     "C17": "rapid draws a list of 1-6 grammar-generated Go regexps (literals, classes, groups, alternation, quantifiers, anchors, "
            "leading / mid-expression / scoped inline flags) marked include/exclude, 2-8 candidate hosts derived from per-rule witness "
            "strings by case flips / prefixes / suffixes / truncation, and a permutation of the list. Non-trivial = at least 2 rules "
